@@ -110,6 +110,15 @@ CHECKS = {
                      "executed twice: in an ASan+UBSan build (any report is a violation) and in a build whose malloc/free seam counts blocks allocated inside the call "
                      "window that survive the release of the result and the error (leaks are attributed to the allocating library frame).",
                 note="Allocation failure is not injected; quick strides each function's product to 150k tuples (thorough: complete). UBSan nonnull-attribute off."),
+    "C16": dict(level="model_checking", engine="HIST", ref="4/C16",
+                technique="explicit-state BFS over call histories of the real library with a whole-state key (digest of the library's writable sections, tables, locale, cwd, live blocks), closed; plus all ordered pairs and core triples",
+                text="A state is the history reaching it, replayed in a fresh process; its key digests the library's writable static storage (sections renamed at "
+                     "build time), the generated table object, the process locale, cwd and the live library blocks. From every state every op of the alphabet "
+                     "(~500 ops: first/middle/last succeeding, first/last failing and a 1e-7 neighbour tuple of every entry point, XRayInit, deprecated setters) is "
+                     "executed and its result compared bit for bit with the same op in a freshly exec'd process; a changed key opens a new state. On a pure library "
+                     "the reachable set is one state and the search closes: purity for histories of any length over the alphabet. All ordered pairs and all "
+                     "triples over a core run in long-lived processes as a defence against state the key cannot see; C and comma-decimal locale.",
+                note="Argument values outside the alphabet are not covered; libc-internal state other than locale/cwd/stdio is not in the key."),
 }
 NOT_YET = {}
 ALL = ["C%02d" % i for i in range(1, 21)]
